@@ -100,6 +100,10 @@ func (s *PrintCtx) set(e *Entry, lvl Level, timestamp time.Time, stackFrame uint
 	s.stackFrame = stackFrame
 	s.msg = msg
 	s.kvps = kvps
+
+	// the context comes from a pool: a level without a colour entry must
+	// not inherit the colours of the record formatted before it
+	s.clr, s.bg = clrBasic, clrNone
 }
 
 //
